@@ -78,15 +78,12 @@ theorem tie_guardedWriteShape : guardedWriteShape =
 theorem tie_newOnceChanShape : newOnceChanShape =
     ["return"] := by decide
 
-/-- onceChan.write: CAS on wrote, then the send (pwrite → psend) — the code as it is.  The second form is the
-proposed repair `fixes/C10-oncechan-write-atomic.patch` (`Props.generator_panic_can_be_lost`): a non-blocking
-send into the capacity-1 channel, i.e. the CAS form with the window between CAS and send closed (the winner
-sends at once); every run of it is a run of the model in which `psend` follows `pwrite` immediately, except
-that the buffer can be re-filled after the caller has emptied it, which nobody reads.  Both are accepted so
-that applying the repair does not break this check; the model keeps the weaker (CAS) form. -/
+/-- onceChan.write: ONE non-blocking send into the capacity-1 channel (`Model.stepA`: the CAS form with the window
+between "won" and "sent" closed).  Round 3 accepted the CAS form `if atomic.CompareAndSwapInt32(&oc.wrote, 0, 1) { send }`
+as well; since round 4 the full `Props4.panic_not_lost` is stated for the atomic form and is FALSE for the CAS form
+(`Props.generator_panic_can_be_lost`), so only the atomic form is accepted. -/
 theorem tie_onceChanWriteShape : onceChanWriteShape =
-    ["if atomic.CompareAndSwapInt32(&oc.wrote, 0, 1) {", "send oc.channel", "}"] ∨
-    onceChanWriteShape = ["select{", "case send oc.channel:", "default:", "}"] := by decide
+    ["select{", "case send oc.channel:", "default:", "}"] := by decide
 
 /-- onceChan.repanic: non-blocking receive, re-raise (CPc.check). -/
 theorem tie_onceChanRepanicShape : onceChanRepanicShape =
